@@ -230,3 +230,48 @@ Proof.
   - vm_compute. auto 20.
 Qed.
 Print Assumptions one_delta_rule_per_predicate_refuted.
+
+(* ---- a negated atom that keeps a wildcard is decided by UNIFICATION, not by membership
+   (seeded change C20-5). Witness  node=0 path=1 sink=2; the wildcard is a variable of its
+   own (TVar 99) that nothing binds:
+     node(1). node(2). node(3). path(1,2). path(2,3).   sink(X) :- node(X), !path(X, _).
+   Both models finish with sink(3) and without sink(1); by naive_exact sink(1) is not in the
+   stratified least model (an engine that looks path(1,_) up by membership derives it). *)
+Definition wn_prog : list clause :=
+  [ mkClause (mkAtom 2 [w_X]) [PAtom (mkAtom 0 [w_X]); PNeg (mkAtom 1 [w_X; TVar 99])] [] ].
+Definition wn_layers : list (list Z) := [[2]].
+Definition wn_init : list fact :=
+  [ (0, [CNum 1]); (0, [CNum 2]); (0, [CNum 3]); (1, [CNum 1; CNum 2]); (1, [CNum 2; CNum 3]) ].
+Definition wn_s1 : fact := (2, [CNum 1]).
+Definition wn_s3 : fact := (2, [CNum 3]).
+
+Example wn_valid : (forall c, In c wn_prog -> clet c = []) /\ valid_stratification wn_prog wn_layers.
+Proof.
+  split.
+  - intros c [<-|[]]. reflexivity.
+  - split.
+    + vm_compute. repeat constructor; simpl; intuition discriminate.
+    + intros c [<-|[]]. exists 0%nat. vm_compute. repeat split; intros q Hq;
+        repeat (destruct Hq as [<-|Hq]; [auto with arith|]); try destruct Hq.
+Qed.
+
+Example naive_on_wildcard_witness :
+  naive_program 10 wn_prog wn_layers [] wn_init = Ok (wn_init ++ [wn_s3]).
+Proof. vm_compute. reflexivity. Qed.
+
+Theorem neg_wildcard_decided_by_unification :
+  exists Rn Rs,
+    naive_program 10 wn_prog wn_layers [] wn_init = Ok Rn /\
+    eval_program 10 wn_prog wn_layers [] wn_init = Ok Rs /\
+    In wn_s3 Rn /\ In wn_s3 Rs /\ ~ In wn_s1 Rn /\ ~ In wn_s1 Rs /\
+    ~ slfp wn_prog wn_layers (fun g => In g (add_all [] wn_init)) wn_s1.
+Proof.
+  eexists. eexists. split; [exact naive_on_wildcard_witness|]. split; [vm_compute; reflexivity|].
+  assert (Hn : ~ In wn_s1 (wn_init ++ [wn_s3])).
+  { intros H. vm_compute in H. repeat (destruct H as [H|H]; [discriminate H|]). destruct H. }
+  split; [vm_compute; auto 20|]. split; [vm_compute; auto 20|]. split; [exact Hn|]. split.
+  - intros H. vm_compute in H. repeat (destruct H as [H|H]; [discriminate H|]). destruct H.
+  - intros H. apply Hn. destruct wn_valid as [Hf Hv].
+    apply (naive_exact 10 wn_prog wn_layers [] wn_init _ Hf Hv naive_on_wildcard_witness). exact H.
+Qed.
+Print Assumptions neg_wildcard_decided_by_unification.
